@@ -62,9 +62,9 @@ func (sc *Scenario) Materialize(root string, resultDir string) ([]string, error)
 	if len(sc.Automan) > 0 || sc.AutoSow || sc.AutoFert || sc.AutoIrr || sc.AutoHarvest {
 		w("automan.txt", sc.automanFile())
 	}
-	w("dailyout_conf.yml", outConfigYAML(sc.DailyCols, 1))
-	w("yearlyout_conf.yml", outConfigYAML(sc.YearlyCols, 1))
-	w("cropout_conf.yml", outConfigYAML(sc.CropCols, 1))
+	w("dailyout_conf.yml", outConfigYAML(sc.DailyCols, sc.OutStyle))
+	w("yearlyout_conf.yml", outConfigYAML(sc.YearlyCols, sc.OutStyle))
+	w("cropout_conf.yml", outConfigYAML(sc.CropCols, sc.OutStyle))
 	w("managementout_conf.yml", managementConfigYAML)
 	if err := sc.writeWeather(wdir); err != nil {
 		return nil, err
@@ -466,11 +466,20 @@ func (sc *Scenario) automanFile() string {
 	return b.String()
 }
 
-func outConfigYAML(cols []OutCol, headLines int) string {
+func outConfigYAML(cols []OutCol, st OutStyle) string {
 	var b strings.Builder
-	b.WriteString("FillCharacter: ' '\nSeperatorCharacter: ','\nNaValue: n.a.\nDataColumns:\n")
+	headLines := st.headLines()
+	na := st.Na
+	if na == "" {
+		na = "n.a."
+	}
+	fmt.Fprintf(&b, "FillCharacter: '%s'\nSeperatorCharacter: '%s'\nNaValue: %s\nDataColumns:\n", st.fill(), st.sep(), na)
 	for _, c := range cols {
-		fmt.Fprintf(&b, "- Format: '%s'\n  DataAlignment: right\n  Width: %d\n  VariableName: %s\n", c.Format, c.Width, c.Var)
+		al := c.Align
+		if al == "" {
+			al = "right"
+		}
+		fmt.Fprintf(&b, "- Format: '%s'\n  DataAlignment: %s\n  Width: %d\n  VariableName: %s\n", c.Format, al, c.Width, c.Var)
 		if c.I1 != 0 {
 			fmt.Fprintf(&b, "  VarIndex1: %d\n", c.I1)
 		}
